@@ -1,4 +1,9 @@
-"""C06 - block layout follows the documented line and indentation rules (reference model L)."""
+"""C06 - block layout follows the documented line and indentation rules (reference model L).
+
+small : every sibling sequence of length <= 3 over 13 kinds under 7 kinds of parent, at two depths  (exhaustive)
+model : random validly nested trees against L                                                     (Hypothesis)
+shift : indent / eol metamorphic relation, independent of L                                      (Hypothesis)
+"""
 
 from __future__ import annotations
 
@@ -121,6 +126,31 @@ def body_shift(case, note):
     note(nt and k > 0)
 
 
+def enum_small(tier):
+    from hv.checks.c07 import enum_positions
+
+    yield from enum_positions(tier)
+
+
+def body_small(case, note):
+    """every sibling sequence of length <= 3 over 13 kinds under 7 kinds of parent, also one level deeper, against L"""
+    import htmltools as h
+    from hv.checks.c07 import _pos_node, _pos_wrap
+
+    sibs = [_pos_node(k) for k in case["sibs"]]
+    if case["parent"] == "script":
+        sibs = [x for x in sibs if x["k"] in ("text", "html")]
+    roots = [gen.make_valid(n) for n in _pos_wrap(case["parent"], sibs)]
+    outer = [{"k": "tag", "name": "main", "ws": True, "attrs": [], "kids": [{"k": "text", "s": "o"}] + roots}]
+    for forest in (roots, outer):
+        tl = h.TagList(*[build(r) for r in forest])
+        for indent, eol in ((0, "\n"), (3, "\r\n"), (1, "")):
+            got, exp = tl.get_html_string(indent, eol), L.render_list(forest, indent, eol)
+            check(got == exp, f"{case['sibs']} under a {case['parent']} parent: layout differs from the documented rules (indent={indent}, eol={eol!r})", exp, got)
+        check(str(tl) == L.render_list(forest, 0, "\n"), "str() differs from the documented layout")
+    note(True, "parent:" + case["parent"])
+
+
 def selftest():
     L.selftest()
 
@@ -132,6 +162,7 @@ RULE = (
 )
 
 CLAUSES = [
+    Clause("small", body_small, source="enum", enum=enum_small, shards_quick=8, shards_thorough=16, rule="every case"),
     Clause("model", body_model, strategy=case_strategy, quick=800, thorough=12000, shards_quick=4, required=("list-root-mixed", "indent>0", "blank-leaf", "same-object-twice", "rendered-earlier-below-an-inline-element", "more-than-500-children"), rule="block with block and non-block children"),
     Clause("shift", body_shift, strategy=case_strategy, quick=400, thorough=6000, shards_quick=2, rule=">=3 lines, indent>0"),
 ]
